@@ -427,6 +427,7 @@ public:
       c.diffuse_rhd = r.chance(0.4);
       c.fields_mask = r.chance(0.4) ? (int)r.below(256) : 0;
       c.copy_level = c.radiation ? (int)r.below(3) : 0;
+      c.task_plot_rhd = c.radiation && r.chance(0.15) ? (int)r.range(1, 2) : 0;
       const char *vm = getenv("VERIF_MODE");
       if (vm && std::string(vm) == "valgrind") {
         // memcheck part: about 50x slower, and without UBSan the known
@@ -555,6 +556,10 @@ public:
     int rc = -1;
     bool finished = guarded([&]() {
       std::vector< std::string > extra;
+      if (c.task_plot_rhd > 0) {
+        extra.push_back("--task-plot-rhd");
+        extra.push_back(std::to_string(c.task_plot_rhd));
+      }
       extra.push_back("--number-of-steps");
       if (c.restart_midway) {
         // stop after the first step, then restart from the dump
@@ -562,6 +567,10 @@ public:
         rc = run_rhd(pf, c.threads, extra);
         if (rc == 0) {
           std::vector< std::string > extra2;
+          if (c.task_plot_rhd > 0) {
+            extra2.push_back("--task-plot-rhd");
+            extra2.push_back(std::to_string(c.task_plot_rhd));
+          }
           extra2.push_back("--restart");
           extra2.push_back(dir);
           extra2.push_back("--number-of-steps");
